@@ -5,7 +5,7 @@ import mir
 import synfacts
 from facts import REPO
 from framework import fn_key
-from mir import op_place
+from mir import pl_projs, pl_local, op_place, op_place
 from util import calls_on_field
 
 LEVEL = "other"
@@ -96,3 +96,88 @@ def run(ctx):
                                   "silently differs from the compiled one" % (key, fl["ty"]), "%s:%s" % (f, fl.get("line", st["line"])))
     if n < 5:
         ctx.anchor_missing(R_S, "serde-skipped fields (found %d)" % n)
+    ports_rule(ctx, mir.load_crate("dfir_lang"))
+
+
+def _field_path(p):
+    return tuple(int(pr[1:].split(":")[0]) for pr in pl_projs(p) if pr.startswith(".") and pr[1:].split(":")[0].isdigit())
+
+
+def _trace_port(b, local, depth=0):
+    """(port tuple index, edge component path of the remove_intermediate_vertex result) for a port value taken out of `ports.remove(edge).unwrap()`"""
+    if depth > 8 or not isinstance(local, int):
+        return None
+    for bb, idx, rv in b.defs_of(local):
+        if idx == "term":
+            continue
+        if rv["k"] == "use":
+            p = op_place(rv["ops"][0])
+            if p is None:
+                continue
+            if isinstance(p, int):
+                r = _trace_port(b, p, depth + 1)
+                if r:
+                    return r
+                continue
+            fp = _field_path(p)
+            base = pl_local(p)
+            if len(fp) == 1:
+                # base = unwrap(remove(ports, edge))
+                for db, didx, t in b.defs_of(base):
+                    if didx == "term" and t["k"] == "call" and t.get("f") and t["f"]["name"] == "unwrap" and t["a"]:
+                        q = op_place(t["a"][0])
+                        for eb, eidx, t2 in b.defs_of(pl_local(q)) if q is not None else []:
+                            if eidx == "term" and t2["k"] == "call" and t2.get("f") and t2["f"]["name"] == "remove" and len(t2["a"]) >= 2:
+                                e = op_place(t2["a"][1])
+                                return (fp[0], _trace_edge(b, pl_local(e)) if e is not None else None)
+    return None
+
+
+def _trace_edge(b, local, depth=0):
+    if depth > 6 or not isinstance(local, int):
+        return None
+    for bb, idx, rv in b.defs_of(local):
+        if idx != "term" and rv["k"] == "use":
+            p = op_place(rv["ops"][0])
+            if p is None:
+                continue
+            if isinstance(p, int):
+                r = _trace_edge(b, p, depth + 1)
+                if r:
+                    return r
+            else:
+                base = pl_local(p)
+                for db, didx, t in b.defs_of(base):
+                    if didx == "term" and t["k"] == "call" and t.get("f") and t["f"]["name"] == "unwrap" and t["a"]:
+                        q = op_place(t["a"][0])
+                        for eb, eidx, t2 in b.defs_of(pl_local(q)) if q is not None else []:
+                            if eidx == "term" and t2["k"] == "call" and t2.get("f") and t2["f"]["name"] == "remove_intermediate_vertex":
+                                return _field_path(p)
+    return None
+
+
+def ports_rule(ctx, c):
+    """removing a pass-through node reconnects predecessor and successor with the OUTER ports: (source port of the incoming edge, destination port of the outgoing edge)"""
+    R = ctx.rule("C20.ports", "remove_intermediate_node keeps the predecessor edge's source port and the successor edge's destination port", floor=1)
+    bs = [b for d, b in c.bodies.items() if d.endswith("::remove_intermediate_node") and "meta_graph" in d]
+    if not bs:
+        ctx.anchor_missing(R, "DfirGraph::remove_intermediate_node")
+        return
+    b = bs[0]
+    key = "dfir_lang|DfirGraph::remove_intermediate_node"
+    ins = [(bb, t) for bb, t in b.calls() if t.get("f") and t["f"]["name"] == "insert" and len(t["a"]) >= 3 and not b.is_cleanup(bb)]
+    got = None
+    for bb, t in ins:
+        tup = op_place(t["a"][2])
+        if not isinstance(tup, int):
+            continue
+        for db, idx, rv in b.defs_of(tup):
+            if idx != "term" and rv["k"] == "agg" and rv["agg"] == "tuple" and len(rv["ops"]) == 2:
+                got = [_trace_port(b, pl_local(op_place(o))) if op_place(o) is not None else None for o in rv["ops"]]
+    ctx.inst(R, key, sample={"new_edge_ports": got, "expected": [[0, [1, 0]], [1, [1, 1]]]})
+    # di_mul_graph::remove_intermediate_vertex returns (new_edge, (pred_edge, succ_edge)): component (1,0) is the incoming edge, (1,1) the outgoing one
+    if got is None or None in got:
+        ctx.violation(R, key + "|untraceable", "cannot trace the ports of the reconnecting edge to ports.remove(..) of the two removed edges (fail closed): %s" % (got,), b.loc())
+    elif got != [(0, (1, 0)), (1, (1, 1))]:
+        ctx.violation(R, key + "|wrong-ports", "the reconnecting edge gets ports %s (expected: source port = component 0 of the incoming edge's ports, destination port = component 1 of the outgoing "
+                      "edge's ports): the removed node's inner (elided) ports are kept and the neighbours' explicit ports are lost, so inputs/outputs of the neighbour are permuted" % (got,), b.loc())
